@@ -90,4 +90,9 @@ def c13_grid_case(verif_seed, index, quick=False):
         # the other interpolant: the equilibrium that reaches the workers (pickled with
         # dill) must interpolate exactly as the caller's does
         sc["options"]["psi_interpolation_method"] = "dct"
+    if index % 12 == 5:
+        # stratum: the recovery path of followPerpendicular (lines that exceed maxits are
+        # truncated, with a warning) taken inside workers
+        sc["options"].update({"follow_perpendicular_recover": True,
+                              "follow_perpendicular_maxits": rng.choice((30, 40, 60))})
     return {"index": index, "scenario": sc, "seed": seed}
